@@ -141,19 +141,33 @@ fn exhaustive(ctx: &mut Ctx, maxlen: usize) {
     }
 }
 
+/// Symbols after which the T-service is expected to close the connection (generated dispatch
+/// returns Err after its InvalidParameter reply; a `continues` reply without `more` fails).
+pub fn closes(s: &Sym) -> bool {
+    matches!(s.kind, Kind::BadMissing | Kind::BadType)
+        || (s.kind == Kind::NaiveStream && s.flag != Flag::More)
+}
+
+/// Random sequences; 60% of them avoid the closing symbols so that long pipelines stay open.
 pub fn seq_strategy(
     alpha: Vec<Sym>,
     lo: usize,
     hi: usize,
 ) -> impl Strategy<Value = (Vec<Sym>, usize, u8)> {
+    let open: Vec<Sym> = alpha.iter().filter(|s| !closes(s)).cloned().collect();
     let n = alpha.len();
+    let m = open.len();
     (
-        prop::collection::vec(0..n, lo..=hi),
+        prop::collection::vec((0..n, 0..m), lo..=hi),
         any::<prop::sample::Index>(),
         0u8..4,
+        0u8..10,
     )
-        .prop_map(move |(ix, d, style)| {
-            let syms: Vec<Sym> = ix.into_iter().map(|i| alpha[i]).collect();
+        .prop_map(move |(ix, d, style, mode)| {
+            let syms: Vec<Sym> = ix
+                .into_iter()
+                .map(|(i, j)| if mode < 6 { open[j] } else { alpha[i] })
+                .collect();
             let depth = 1 + d.index(syms.len());
             (syms, depth, style)
         })
